@@ -65,6 +65,9 @@ def simple : Cmd → Bool
   | .note .. | .noteN .. | .rest .. | .setL .. | .setO .. | .octRel .. | .setV .. | .velRel .. | .setQ .. | .setT .. => true
   | _ => false
 
+/-- the `LineNo` token that opens every token list the lexer returns (its line value only feeds messages) -/
+def lineTok : Tok := .mk .lineNo 0 0 none [] none
+
 mutual
 /-- the loop trees of a program over leaf tokens -/
 def toTrees : Cmd → List (Loop.Tree Tok)
@@ -80,8 +83,8 @@ def toTrees : Cmd → List (Loop.Tree Tok)
   | .setQ n => [.leaf (tok .qlen n [])]
   | .setT n => [.leaf (tok .timing n [])]
   | .loop n body hb brk => [.loop n (toTreesL body) hb (toTreesL brk)]
-  | .sub body => [.leaf (.mk .sub 0 0 none [] (some (rawL (toTreesL body))))]
-  | .div body len => [.leaf (.mk .div (Core.countElems body) 0 none [.str (lenText len)] (some (rawL (toTreesL body))))]
+  | .sub body => [.leaf (.mk .sub 0 0 none [] (some (lineTok :: rawL (toTreesL body))))]
+  | .div body len => [.leaf (.mk .div (Core.countElems body) 0 none [.str (lenText len)] (some (lineTok :: rawL (toTreesL body))))]
   | .chord body len q v =>
     [.leaf (tok .harmonyBegin 0 [])] ++ toTreesL body ++
       [.leaf (tok .harmonyEnd 0 [lenSV len, optInt (-1) q, velSV v])]
@@ -156,6 +159,12 @@ theorem inv_setT (s : Song) (t : Trk) (h : Inv s) (ht : TrkOK t) : Inv (s.setT t
 
 theorem trkOK_upd (t : Trk) (h : TrkOK t) (tp ch l o v q tm key : Int) (ev : List Event) :
     TrkOK { t with timepos := tp, channel := ch, length := l, octave := o, velocity := v, qlen := q, timing := tm, trackKey := key, events := ev } := h
+
+theorem leaf_lineNo (F d : Nat) (s : Song) (h : Inv s) :
+    abs (leaf F d lineTok s) = abs s ∧ Inv (leaf F d lineTok s) ∧ (leaf F d lineTok s).harmonyFlag = s.harmonyFlag := by
+  unfold leaf
+  simp only [h.nb, Bool.false_eq_true, if_false, lineTok, Tok.ty]
+  exact ⟨rfl, ⟨by simpa using h.nb, by simpa using h.ks, by simpa using h.oo, by simpa using h.cur, by simpa using h.he, by simpa using h.tr⟩, trivial⟩
 
 theorem leaf_setO (F d : Nat) (n : Int) (s : Song) (h : Inv s) :
     abs (leaf F d (tok .octave n []) s) = Core.sem (.setO n) (abs s) ∧ Inv (leaf F d (tok .octave n []) s) ∧ (leaf F d (tok .octave n []) s).harmonyFlag = s.harmonyFlag := by
@@ -705,14 +714,23 @@ theorem all_simple_depth : ∀ (b : List Cmd), b.all simple = true → depthL b 
     have : depth c = 0 := by cases c <;> simp_all [simple, depth]
     simp [depthL, this, ih h.2]
 
-/-- running the children of a block token: with enough fuel the nested `exec` is the fold over the unrolled leaves -/
+/-- running the children of a block token (`LineNo` first, as the lexer writes them): with enough fuel the nested `exec` is
+    the fold over the unrolled leaves -/
 theorem block_run (b : List Cmd) (hw : cwfL b) :
     ∃ k, ∀ (act : Tok → Song → Song) (s : Song) (F : Nat), k + 1 ≤ F →
-      Loop.runFuel act ((rawL (toTreesL b)).map toLoopTok) F (0, [], s) = some (Loop.foldAct act (Loop.unrollL (toTreesL b)) s) := by
-  obtain ⟨k, hk⟩ := Loop.level_run (toTreesL b) (toTreesL_wf b hw)
+      Loop.runFuel act ((lineTok :: rawL (toTreesL b)).map toLoopTok) F (0, [], s) =
+        some (Loop.foldAct act (Loop.unrollL (toTreesL b)) (act lineTok s)) := by
+  have hwf : Loop.wfL (Loop.Tree.leaf lineTok :: toTreesL b) = true := by
+    simp [Loop.wfL, Loop.wf, toTreesL_wf b hw]
+  have hlv : leavesOKL (Loop.Tree.leaf lineTok :: toTreesL b) := by
+    simp only [leavesOKL, leavesOK]
+    exact ⟨by simp [LeafTok, lineTok, Tok.ty], toTreesL_leaves b⟩
+  obtain ⟨k, hk⟩ := Loop.level_run _ hwf
   refine ⟨k, fun act s F hF => ?_⟩
-  rw [raw_flattenL _ (toTreesL_leaves b)]
-  exact hk act s F hF
+  have e := raw_flattenL _ hlv
+  simp only [rawL, rawT, List.singleton_append] at e
+  rw [e, hk act s F hF]
+  simp [Loop.unrollL, Loop.unroll, Loop.foldAct]
 
 mutual
 theorem refine (c : Cmd) (hw : cwf c) : ∀ d, depth c ≤ d → ∃ F0, ∀ F, F0 ≤ F →
@@ -757,7 +775,10 @@ theorem refine (c : Cmd) (hw : cwf c) : ∀ d, depth c ≤ d → ∃ F0, ∀ F, 
     obtain ⟨k, hk⟩ := block_run b hw
     refine ⟨max Fb (k + 1), fun F hF => Impl.single (fun s hi hf => ?_)⟩
     have hrun := hk (leaf F d') s F (by omega)
-    obtain ⟨a1, a2, a3⟩ := (hFb F (by omega)) s hi (fun _ => hf (by simp [simple]))
+    obtain ⟨l1, l2, l3⟩ := leaf_lineNo F d' s hi
+    obtain ⟨a1, a2, a3⟩ := (hFb F (by omega)) _ l2 (fun _ => by rw [l3]; exact hf (by simp [simple]))
+    rw [l1] at a1
+    rw [l3] at a3
     have e1 : (abs s).t.tp = s.t.timepos := by rw [abs_t]; rfl
     unfold leaf
     simp only [hi.nb, Bool.false_eq_true, if_false, Tok.ty, Tok.children, hrun, a2.nb]
@@ -780,7 +801,10 @@ theorem refine (c : Cmd) (hw : cwf c) : ∀ d, depth c ≤ d → ∃ F0, ∀ F, 
     have hfl0 : s0.harmonyFlag = false := by rw [hs0d]; exact hfl
     have ht0 : s0.tb = s.tb := by rw [hs0d]; rfl
     have hrun := hk (leaf F d') s0 F (by omega)
-    obtain ⟨a1, a2, a3⟩ := (hFb F (by omega)) s0 hi0 (fun _ => hfl0)
+    obtain ⟨l1, l2, l3⟩ := leaf_lineNo F d' s0 hi0
+    obtain ⟨a1, a2, a3⟩ := (hFb F (by omega)) _ l2 (fun _ => by rw [l3]; exact hfl0)
+    rw [l1] at a1
+    rw [l3] at a3
     have hs0 : abs s0 = (abs s).setT { (abs s).t with l := if Core.countElems b > 0 then Core.tdiv (Core.lenOpt (abs s).tb (abs s).t.l len) (Core.countElems b) else 0 } := by
       rw [hs0d, abs_setT, e1]
       congr 1
@@ -789,7 +813,7 @@ theorem refine (c : Cmd) (hw : cwf c) : ∀ d, depth c ≤ d → ∃ F0, ∀ F, 
       split
       · rename_i hc; simp [Core.tdiv, Int.ne_of_gt hc]
       · rfl
-    generalize Loop.foldAct (leaf F d') (Loop.unrollL (toTreesL b)) s0 = S' at hrun a1 a2 a3
+    generalize Loop.foldAct (leaf F d') (Loop.unrollL (toTreesL b)) (leaf F d' lineTok s0) = S' at hrun a1 a2 a3
     unfold leaf
     simp only [hi.nb, Bool.false_eq_true, if_false, Tok.ty, Tok.children, Tok.vi, Tok.data, dataS, List.getD_cons_zero, str_toS,
       calcLength_lenText _ _ len hw.2, ← hs0d, hrun, a2.nb]
@@ -835,7 +859,7 @@ theorem refineL (cs : List Cmd) (hw : cwfL cs) : ∀ d, depthL cs ≤ d → ∃ 
 end
 
 /-- the token list the lexer produces for a program (loops flat, blocks with their children) -/
-def compileL (cs : List Cmd) : List Tok := rawL (toTreesL cs)
+def compileL (cs : List Cmd) : List Tok := lineTok :: rawL (toTreesL cs)
 
 /-- **exec_refines_sem**: for every well-formed program of the core note language (any nesting of loops with `:`,
     `Sub`, tuplets and chords, on any tracks) there is a fuel bound such that `runner::exec` (the model `Ex2.exec`) run on the
@@ -847,8 +871,9 @@ theorem exec_refines_sem (cs : List Cmd) (hw : cwfL cs) :
   obtain ⟨F1, h1⟩ := refineL cs hw (depthL cs) (Nat.le_refl _)
   obtain ⟨k, hk⟩ := block_run cs hw
   refine ⟨max F1 (k + 1), fun F hF s hi hf => ?_⟩
-  obtain ⟨a1, a2, _⟩ := (h1 F (by omega)) s hi (fun _ => hf)
-  exact ⟨_, hk (leaf F (depthL cs)) s F (by omega), a1, a2⟩
+  obtain ⟨l1, l2, l3⟩ := leaf_lineNo F (depthL cs) s hi
+  obtain ⟨a1, a2, _⟩ := (h1 F (by omega)) _ l2 (fun _ => by rw [l3]; exact hf)
+  exact ⟨_, hk (leaf F (depthL cs)) s F (by omega), by rw [a1, l1], a2⟩
 
 theorem inv_init : Inv ({} : Song) := by
   refine ⟨rfl, rfl, rfl, by decide, fun _ => rfl, ?_⟩
